@@ -345,6 +345,11 @@ func run(c *core.Ctx) {
 	explore.Explore(-1, func(x *explore.C) { cs = gen(x, r3, true) }, visit("runs3"))
 	// (2) deviation ball around the baseline document over all model and rendering choice points
 	explore.Explore(bound, func(x *explore.C) { cs = gen(x, full, false) }, visit("ball"))
+	if c.Tier == core.Thorough {
+		// four simultaneous departures on the small profile (<=2 cues, lines, runs)
+		small := fullProfile(false)
+		explore.Explore(4, func(x *explore.C) { cs = gen(x, small, false) }, visit("ball4"))
+	}
 	c.ExtraMax["deviation_bound"] = float64(bound)
 }
 
@@ -366,8 +371,8 @@ func init() {
 		ID: "C01", Level: "exploration",
 		Rule: "a case = (ground-truth cue model, rendering choices) chosen by the E1 explorer: full cartesian product of a tiny grammar plus every document within B deviations from the baseline over all model and rendering choice points (cue count, instants, lines, runs, 7 styles, 18 text atoms; EOL, BOM, index form, blank lines, EOF form, separator, fraction digits, hour digits, arrow spacing, coordinates, lazy/unterminated tags, tag case, colour quoting, line padding, nbsp form); read direction: ReadFromSRT(render(model)) must denote the model; write direction: WriteToSRT(model) must satisfy the grammar and denote the model to the library reader and to an independent decoder; non-trivial = non-baseline case, distinct by (denotation, rendering)",
 		Scope: map[core.Tier]string{
-			core.Quick:    "core product (1 cue x <=2 lines x <=2 runs x 3 styles x 3 texts x EOL x index x EOF form x lazy tags) + deviation ball B=2 (<=2 cues, <=2 lines, <=2 runs)",
-			core.Thorough: "core product + deviation ball B=3 (<=3 cues, <=3 lines, <=3 runs)",
+			core.Quick:    "core product (1 cue x <=2 lines x <=2 runs x 3 styles x 3 texts x EOL x index x EOF form x lazy tags) + 3-run product (3 styles x 5 texts incl. no-break-space-only) + deviation ball B=2 (<=2 cues, <=2 lines, <=2 runs)",
+			core.Thorough: "core product + 3-run product + deviation ball B=3 (<=3 cues, <=3 lines, <=3 runs) + B=4 on the <=2 profile",
 		},
 		Assumptions: []string{"Go toolchain and standard library", "independent reference codec engine/ref/srt", "white-space-only runs and outer line white space are outside the SubRip denotation (the format cannot carry them)"},
 		Plain:       run, Replay: replay,
